@@ -476,7 +476,10 @@ func (d *Driver) Check(only []Case) int {
 	var mu sync.Mutex
 	sem := make(chan struct{}, d.Jobs)
 	var wg sync.WaitGroup
-	for _, b := range batches {
+	// (the families appended last to a case list tend to hold the longest cases: start them first so that they do not
+	// begin when everything else is over; outcomes are put back into case order below)
+	for i := len(batches) - 1; i >= 0; i-- {
+		b := batches[i]
 		wg.Add(1)
 		sem <- struct{}{}
 		go func(b *batch) {
